@@ -35,6 +35,7 @@ type HarnessResult struct {
 	Paths          int // completed paths (incl. assume-pruned)
 	PathsPruned    int
 	Decisions      int
+	IfConverted    int `json:"if_converted,omitempty"`
 	Obligations    int
 	Discharged     int
 	DischargedTriv int
@@ -72,6 +73,7 @@ func (h *harnessRun) push(prefix []int) {
 	h.cond.Signal()
 }
 
+func (h *harnessRun) noteIfConv()     { h.mu.Lock(); h.res.IfConverted++; h.mu.Unlock() }
 func (h *harnessRun) noteDecision()   { h.mu.Lock(); h.res.Decisions++; h.mu.Unlock() }
 func (h *harnessRun) noteObligation() { h.mu.Lock(); h.res.Obligations++; h.mu.Unlock() }
 func (h *harnessRun) noteDischarged(trivial bool) {
@@ -250,6 +252,7 @@ func (h *harnessRun) runPath(sess *session, prefix []int) {
 		inited:  map[*ssa.Package]bool{},
 		funcs:   map[string]bool{},
 	}
+	i.ctx.XorNF = cfg.XorNF
 	p := &pathState{eng: h.eng, h: h, prefix: prefix, sess: sess, names: map[string]int{}}
 	p.interp = i
 	i.path = p
